@@ -89,8 +89,12 @@ class Lockstep:
             self.nextver += 1
             self.snap[self.ver] = copy.deepcopy(t.state_dict())
         elif op in (TO32, TO64):
+            lossy = self.dtype == torch.float64 and op == TO32
             self.dtype = torch.float32 if op == TO32 else torch.float64
             t.to(self.dtype)
+            if lossy:
+                # float64 -> float32 rounds the parameters: from here on "the current parameters" are the rounded ones
+                self.snap[self.ver] = copy.deepcopy(t.state_dict())
         else:
             inv = op in (INV, INVB)
             back = op in (FWDB, INVB)
@@ -171,7 +175,7 @@ def run_history(ck, drv, name, ctor, image, u, ops, seed, mm):
                     bad = "values: implementation output is not built from version %d/%d as the model says" % (mv, lv)
             if bad:
                 mm.append({"history": hist, "what": bad})
-                return
+                model = None        # keep checking the property itself on the implementation for the rest of the history
         # the property itself, on the implementation: compare with the uncached twin at current parameters
         if op in (FWD, INV, FWDB, INVB):
             ref = ls.twin(ls.ver, ls.dtype)
@@ -211,6 +215,9 @@ def admissible(ops, u):
     return True
 
 
+NCORPUS = 15      # the pointed histories at the head of histories() always run on every class
+
+
 def histories(tier, seed):
     r = rng(seed, "hist")
     core = [TRAIN, EVAL, UC0, UC1, FWD, INV, UPD, LOAD, TO32, TO64]
@@ -219,7 +226,10 @@ def histories(tier, seed):
     hs += [[EVAL, FWD, LOAD, FWD], [EVAL, INV, LOAD, INV], [EVAL, FWD, TO64, FWD], [EVAL, FWD, TRAIN, UPD, EVAL, FWD],
            [EVAL, UC0, FWD, UC1, FWD, INV], [EVAL, INV, FWD, TRAIN, UPD, EVAL, INV, FWD],
            [EVAL, FWDB, FWDB], [EVAL, INVB, INVB], [EVAL, FWDB], [EVAL, FWD, TO64, TO32, FWD],
-           [EVAL, FWD, UC0, LOAD, UC1, FWD], [EVAL, INV, UC0, TRAIN, UPD, EVAL, UC1, INV]]
+           [EVAL, FWD, UC0, LOAD, UC1, FWD], [EVAL, INV, UC0, TRAIN, UPD, EVAL, UC1, INV],
+           # lossy dtype round trips with no call in between (the parameters are rounded, a cache must not survive)
+           [TO64, EVAL, FWD, TO32, TO64, FWD], [TO64, EVAL, INV, TO32, TO64, INV, FWD],
+           [TO64, TRAIN, UPD, EVAL, FWD, INV, TO32, TO64, INV, FWD]]
     n = 60 if tier == "quick" else 1500
     maxlen = 12 if tier == "quick" else 40
     while len(hs) < n:
@@ -258,9 +268,9 @@ def run(tier, seed):
     hs = histories(tier, seed)
     for hi, ops in enumerate(hs):
         for ci, (name, ctor, image) in enumerate(classes()):
-            if tier == "quick" and hi >= 12 and (hi + ci) % 5 != 0:
+            if tier == "quick" and hi >= NCORPUS and (hi + ci) % 5 != 0:
                 continue
-            if tier == "thorough" and hi >= 12 and len(ops) <= 4 and (hi + ci) % 5 != 0:
+            if tier == "thorough" and hi >= NCORPUS and len(ops) <= 4 and (hi + ci) % 5 != 0:
                 continue
             for u in ((True,) if hi % 3 else (True, False)):
                 n += 1
